@@ -33,14 +33,23 @@ def world(*a, **kw):
     return _world.World(*a, **kw)
 
 
+HELLO = b"\x16<null-tls-client-hello>\n"  # what mitmproxy-as-TLS-client sends first
+DONE = b"\x16<null-tls-server-done>\n"  # what the TLS server answers; after it, data flows in the clear
+
+
 class NullSSL:
-    """identity 'cipher' with the part of the SSL.Connection interface that TLSLayer uses"""
+    """identity 'cipher' with the part of the SSL.Connection interface that TLSLayer uses.
+
+    Towards a server (server_side=False) the handshake is one round trip: HELLO out, DONE in - the real
+    ServerTLSLayer relies on the first do_handshake() wanting to read.  Towards the client (server_side=True)
+    the buffered ClientHello is swallowed and DONE is sent."""
 
     def __init__(self, server_side: bool, alpn: bytes = b""):
         self.server_side = server_side  # True: mitmproxy is the TLS server (client connection)
         self.inbound = bytearray()
         self.outbound = bytearray()
         self.done = False
+        self.sent = False
         self.alpn = alpn
         self.hello = b""
 
@@ -57,12 +66,23 @@ class NullSSL:
         return out
 
     def do_handshake(self):
-        if not self.done:
-            if self.server_side:
-                # what arrived so far is the ClientHello (ClientTLSLayer buffered it until it parsed)
-                self.hello = bytes(self.inbound)
-                self.inbound.clear()
+        if self.done:
+            return
+        if self.server_side:
+            # what arrived so far is the ClientHello (ClientTLSLayer buffered it until it parsed)
+            self.hello = bytes(self.inbound)
+            self.inbound.clear()
+            self.outbound.extend(DONE)
             self.done = True
+            return
+        if not self.sent:
+            self.outbound.extend(HELLO)
+            self.sent = True
+        if bytes(self.inbound[:len(DONE)]) == DONE:
+            del self.inbound[:len(DONE)]
+            self.done = True
+            return
+        raise SSL.WantReadError()
 
     # -- application side
     def recv(self, n):
@@ -97,10 +117,79 @@ class NullSSL:
 
 def null_tls_policy(name, data, world):
     """addon behaviour: provide the NullSSL object where TlsConfig would provide an OpenSSL connection"""
-    if name == "tls_start_client":
+    if name == "tls_clienthello":
+        # what the stock TlsConfig addon decides here (tlsconfig.py: tls_clienthello)
+        data.establish_server_tls_first = bool(data.context.server.tls and world.options.connection_strategy == "eager")
+    elif name == "tls_start_client":
         data.ssl_conn = NullSSL(True)
     elif name == "tls_start_server":
         data.ssl_conn = NullSSL(False)
+
+
+class TunnelPeer:
+    """scripted upstream side for every mock server socket of a World: answers a null-TLS HELLO with DONE,
+    a CONNECT request with an empty 200, any other complete HTTP/1 request with `response`.  Keeps, per
+    socket, the ordered list of what it read: ("tls",) | ("connect", msg) | ("request", msg) with the nesting
+    that was in force (`tls` = number of TLS layers entered, `tunnel` = number of CONNECT tunnels entered)."""
+
+    def __init__(self, response=b"HTTP/1.1 200 OK\r\nContent-Length: 2\r\n\r\nok", connect_response=b"HTTP/1.1 200 OK\r\n\r\n"):
+        from vmc.refs import http1ref
+
+        self._ref = http1ref
+        self.response = response
+        self.connect_response = connect_response
+        self.state: dict = {}  # id(end) -> {"pos": int, "tls": int, "tunnel": int, "events": [...]}
+
+    def _st(self, e):
+        return self.state.setdefault(id(e), {"pos": 0, "tls": 0, "tunnel": 0, "events": [], "address": e.address, "junk": b""})
+
+    def pump(self, w, limit=100):
+        for _ in range(limit):
+            progressed = False
+            for e in list(w.servers):
+                if e.state != "open" or e.r.eof:
+                    continue
+                st = self._st(e)
+                while True:
+                    data = e.w.data
+                    rest = data[st["pos"]:]
+                    if not rest:
+                        break
+                    if rest.startswith(HELLO):
+                        st["pos"] += len(HELLO)
+                        st["tls"] += 1
+                        st["events"].append({"kind": "tls", "tls": st["tls"], "tunnel": st["tunnel"]})
+                        w.server_send(e, DONE)
+                        progressed = True
+                        continue
+                    if HELLO.startswith(rest):
+                        break  # partial marker
+                    try:
+                        msg, newpos = self._ref._one(data, st["pos"], True)
+                    except self._ref.Stop as s:
+                        if s.verdict != "incomplete":
+                            st["junk"] = rest[:200]
+                        break
+                    ev = {"kind": "connect" if msg["start"][0] == b"CONNECT" else "request", "msg": msg,
+                          "tls": st["tls"], "tunnel": st["tunnel"]}
+                    st["events"].append(ev)
+                    st["pos"] = newpos
+                    if ev["kind"] == "connect":
+                        st["tunnel"] += 1
+                        w.server_send(e, self.connect_response)
+                    else:
+                        w.server_send(e, self.response)
+                    progressed = True
+            if not progressed:
+                break
+
+    def connections(self, w):
+        """[(address, events, unparsed bytes)] for every upstream socket, in connect order"""
+        out = []
+        for e in w.servers:
+            st = self._st(e)
+            out.append((tuple(e.address), st["events"], e.w.data[st["pos"]:]))
+        return out
 
 
 _HELLO_CACHE: dict = {}
